@@ -8,6 +8,7 @@ import (
 	"errors"
 	"sync"
 	"sync/atomic"
+	"time"
 
 	rt "github.com/safing/portbase/zz_verifrt"
 )
@@ -183,4 +184,73 @@ func VerifC15_ConcurrencyBound() {
 	_ = m.RunMicroTask("later", 0, func(context.Context) error { ran = true; return nil })
 	rt.Assert(ran, "bound/later-microtask-admitted")
 	rt.Reach("bound-end")
+}
+
+// ---- O4: max-delay expiry: a medium/low microtask that was not admitted in
+// time starts anyway; once everything has finished the counts are zero again
+// and later microtasks are admitted immediately ----
+
+func VerifC15_MaxDelayExpiry() {
+	rt.SchedYieldOnly(true)
+	m := c15Setup(2) // the minimum threshold
+	u := rt.Unit()
+	gate := make(chan struct{})
+	entered := make(chan struct{}, 2)
+	secondLow := rt.Bool("secondLow")
+	var wg sync.WaitGroup
+	wg.Add(3)
+	for i := 0; i < 2; i++ {
+		holderLow := rt.Bool("holderLow" + string(rune('0'+i)))
+		go func() {
+			defer wg.Done()
+			hold := func(context.Context) error {
+				entered <- struct{}{}
+				<-gate
+				return nil
+			}
+			if holderLow {
+				_ = m.RunLowPriorityMicroTask("holder", 20*u, hold)
+			} else {
+				_ = m.RunMicroTask("holder", 20*u, hold)
+			}
+		}()
+	}
+	<-entered
+	<-entered // both slots are taken by regularly admitted microtasks
+	rt.Assert(atomic.LoadInt32(microTasks) == 2, "maxdelay/holders-counted")
+	t0 := time.Now()
+	var secondAt time.Time
+	secondRan := false
+	go func() {
+		defer wg.Done()
+		fn := func(context.Context) error {
+			secondRan = true
+			secondAt = time.Now()
+			return nil
+		}
+		if secondLow {
+			_ = m.RunLowPriorityMicroTask("second", 2*u, fn)
+		} else {
+			_ = m.RunMicroTask("second", 2*u, fn)
+		}
+	}()
+	time.Sleep(u)
+	rt.Assert(!secondRan, "maxdelay/not-started-while-limit-reached-and-delay-not-expired")
+	time.Sleep(2 * u)
+	rt.Assert(secondRan, "maxdelay/started-after-max-delay")
+	if secondRan {
+		rt.Assert(!secondAt.Before(t0.Add(2*u)), "maxdelay/not-before-max-delay")
+	}
+	close(gate)
+	wg.Wait()
+	time.Sleep(u) // the scheduler picks up the abandoned clearance request
+	rt.Assert(atomic.LoadInt32(m.microTaskCnt) == 0, "maxdelay/module-counter-zero-after-all-finished")
+	rt.Assert(atomic.LoadInt32(microTasks) == 0, "maxdelay/global-counter-zero-after-all-finished")
+	// later microtasks are admitted immediately (not by their own expiry)
+	t1 := time.Now()
+	ran := false
+	_ = m.RunMicroTask("later", 10*u, func(context.Context) error { ran = true; return nil })
+	rt.Assert(ran, "maxdelay/later-microtask-runs")
+	rt.Assert(time.Since(t1) < 5*u, "maxdelay/later-microtask-admitted-immediately")
+	rt.Reach("maxdelay-end")
 }
